@@ -65,6 +65,8 @@ type ReplayPath struct {
 	Output string `json:"solver_output"`
 	Model  map[string]string `json:"model_inputs,omitempty"`
 	RawModel string `json:"raw_model,omitempty"`
+	Diag []string `json:"failing_conjuncts,omitempty"`
+	Candidate bool `json:"model_is_candidate_only,omitempty"`
 }
 
 func (r *report) finish() int {
@@ -149,6 +151,9 @@ func (r *report) finish() int {
 				break
 			}
 			fmt.Printf("     path %s: %s by %s\n", q.Trail, q.Status, q.Solver)
+			for _, d := range q.Diag {
+				fmt.Printf("        %s\n", d)
+			}
 		}
 	}
 	for _, l := range knownHit {
@@ -175,10 +180,14 @@ func (r *report) replayFile(id string, ob *OblResult) *ReplayFile {
 		if i >= 4 {
 			break
 		}
-		rp := ReplayPath{Trail: q.Trail, Status: q.Status, Solver: q.Solver, Output: truncate(q.Output, 1500)}
+		rp := ReplayPath{Trail: q.Trail, Status: q.Status, Solver: q.Solver, Output: truncate(q.Output, 1500), Diag: q.Diag}
 		if q.Model != "" {
 			rp.Model = extractInputs(q.Model)
 			rp.RawModel = truncate(q.Model, 6000)
+		} else if q.GroundModel != "" {
+			rp.Model = extractInputs(q.GroundModel)
+			rp.RawModel = truncate(q.GroundModel, 6000)
+			rp.Candidate = true
 		}
 		rf.Paths = append(rf.Paths, rp)
 	}
@@ -274,7 +283,12 @@ func (r *report) writeEvidence(id string, discharged int, failed []*OblResult, k
 	for _, f := range failed {
 		failedNames = append(failedNames, f.Name)
 	}
-	var assumptions []string
+	assumptions := []string{
+		"integers: Go int/uint are 64 bit; arithmetic is encoded exactly (wrap-around) over mathematical integers, or as bit-vectors in `arith bv64` functions",
+		"memory: make never fails; references handed in by callers are allocated and well-typed",
+		"concurrency: a data-race-free execution orders the critical sections of one mutex; guarded state is havocked at Lock and the monitor invariant is assumed there and proved at every Unlock",
+		"termination is not proved",
+	}
 	for _, fx := range r.fxs {
 		for _, a := range fx.pc.Assumptions {
 			if !contains(assumptions, a) {
@@ -293,10 +307,10 @@ func (r *report) writeEvidence(id string, discharged int, failed []*OblResult, k
 		"obligations_by_kind":      kinds,
 		"solver_stats":             per,
 		"samples":                  samples,
-		"failed":                   failedNames,
-		"known_findings":           knownHit,
+		"failed":                   nonNil(failedNames),
+		"known_findings":           nonNil(knownHit),
 		"phase_seconds":            map[string]any{"load": round3(r.loadS), "generate": round3(r.genS), "solve": round3(r.solveS)},
-		"engine_errors":            r.genErrs,
+		"engine_errors":            nonNil(r.genErrs),
 		"vacuity_canaries":         map[string]any{"checked": countCanaries(r.fxs), "vacuous": len(r.vacuous)},
 		"contract_lines":           contractLines(r.fxs),
 	}
@@ -364,4 +378,11 @@ func cmdReplay(args []string) int {
 	}
 	fmt.Println("not reproduced")
 	return 0
+}
+
+func nonNil(x []string) []string {
+	if x == nil {
+		return []string{}
+	}
+	return x
 }
